@@ -359,8 +359,20 @@ class Heap:
         return h
 
 
+# array groups behind the modifies entries "list" / "dict" (and "list@expr" / "dict@expr")
+GROUPS = {"list": ("list.len", "list.I", "list.R", "list.S", "list.nan"),
+          "dict": ("dict.len", "dict.hasS", "dict.hasI", "dict.SI", "dict.SS", "dict.SR", "dict.IS", "dict.II", "dict.IR")}
+_ZS = {"S": z3.StringSort, "I": z3.IntSort, "R": z3.RealSort}
+
+
 def arr_sort_for(name):
     """z3 sort of the array called `name` (decided by name so that havoc can recreate it)"""
+    if name == "dict.len":
+        return z3.ArraySort(z3.IntSort(), z3.IntSort())
+    if name.startswith("dict.has"):
+        return z3.ArraySort(z3.IntSort(), z3.ArraySort(_ZS[name[-1]](), z3.BoolSort()))
+    if name.startswith("dict."):
+        return z3.ArraySort(z3.IntSort(), z3.ArraySort(_ZS[name[-2]](), _ZS[name[-1]]()))
     if name in ("list.len", "obj.tag", "obj.owner"):
         return z3.ArraySort(z3.IntSort(), z3.IntSort())
     if name == "list.nan":
@@ -704,6 +716,8 @@ class Engine:
                 return V(s, vv.t)
         if k == "tuple" and v.s[0] == "tuple":
             return V(s, tuple(self.coerce(x, y) for x, y in zip(v.t, s[1])))
+        if k == "dict" and v.s[0] == "dict" and v.s[1] == ("unk",):
+            return V(s, v.t)        # empty literal: the sorts are those of the place it is stored in
         if k == "none" and (v.s == NONE or (v.s == PY and v.t is None)):
             return VNONE
         raise Unsupported(f"cannot coerce {v} to {show(s)}")
@@ -765,6 +779,58 @@ class Engine:
         if elems_arr is not None:
             nm = self.elem_arr_name(lst.s[1])
             st.heap.arrs[nm] = z3.Store(self.arr(st, nm), lst.t, elems_arr)
+
+    # dicts ------------------------------------------------------------ (keys: STR or Int-like; has / val arrays per key-value sort pair)
+    @staticmethod
+    def dict_names(s):
+        if s[1] == ("unk",):
+            raise Unsupported("dict of undeclared sort (declare it as a field / local sort)")
+        kc = "S" if s[1] == STR else ("I" if is_intlike(s[1]) else None)
+        vc = "S" if s[2] == STR else ("R" if s[2] == REAL else ("I" if is_intlike(s[2]) else None))
+        if kc is None or vc is None:
+            raise Unsupported(f"dict sort {show(s)}")
+        return "dict.has" + kc, "dict." + kc + vc
+
+    def new_dict(self, st, owner=GEN):
+        oid = self.new_object(st, "dict", owner)
+        st.heap.arrs["dict.len"] = z3.Store(self.arr(st, "dict.len"), oid, z3.IntVal(0))
+        for kc in "SI":       # the key sort is declared where the empty literal is stored: no key of either sort is present
+            st.heap.arrs["dict.has" + kc] = z3.Store(self.arr(st, "dict.has" + kc), oid, z3.K(_ZS[kc](), z3.BoolVal(False)))
+        return V(("dict", ("unk",), ("unk",)), oid)
+
+    def dict_key(self, d, key):
+        kv = lift(key) if key.s == PY else key
+        if (d.s[1] == STR) != (kv.s == STR) or (d.s[1] != STR and not is_intlike(kv.s)):
+            raise Unsupported(f"dict key {key} for {show(d.s)}")
+        return kv.t
+
+    def dict_has(self, st, d, key):
+        hn, _ = self.dict_names(d.s)
+        return z3.Select(heap_select(self.arr(st, hn), d.t, self.param_consts), self.dict_key(d, key))
+
+    def dict_len(self, st, d):
+        ln = heap_select(self.arr(st, "dict.len"), d.t, self.param_consts)
+        st.assume(z3.Implies(z3.And(d.t >= 1, d.t <= st.heap.alloc), ln >= 0))
+        return ln
+
+    def dict_val(self, st, d, key):
+        _, vn = self.dict_names(d.s)
+        kt = self.dict_key(d, key)
+        e = z3.simplify(z3.Select(heap_select(self.arr(st, vn), d.t, self.param_consts), kt))
+        return self.typing_facts(st, V(d.s[2], e), guard=z3.And(self.dict_has(st, d, key), d.t >= 1, d.t <= st.heap.alloc))
+
+    def dict_set(self, st, d, key, val, node=None):
+        hn, vn = self.dict_names(d.s)
+        kt = self.dict_key(d, key)
+        v = self.coerce(val, d.s[2])
+        self.note_write(st, "dict", d.t, node)
+        had = z3.Select(z3.Select(self.arr(st, hn), d.t), kt)
+        ln = self.arr(st, "dict.len")
+        st.heap.arrs["dict.len"] = z3.Store(ln, d.t, z3.Select(ln, d.t) + z3.If(had, 0, 1))
+        ha = self.arr(st, hn)
+        st.heap.arrs[hn] = z3.Store(ha, d.t, z3.Store(z3.Select(ha, d.t), kt, z3.BoolVal(True)))
+        va = self.arr(st, vn)
+        st.heap.arrs[vn] = z3.Store(va, d.t, z3.Store(z3.Select(va, d.t), kt, v.t))
 
     # ------------------------------------------------------------------ obligations
     def oblige(self, st, goal, kind, detail, node=None, text="", props=None):
@@ -1050,6 +1116,10 @@ class Engine:
         lb = lift(b) if b.s == PY else b
         if lb.s == STR and la.s == STR:
             return z3.Contains(lb.t, la.t)
+        if lb.s[0] == "dict":
+            if (lb.s[1] == STR) != (la.s == STR):
+                return z3.BoolVal(False)
+            return self.dict_has(st, lb, a)
         if lb.s[0] == "list":
             ln = self.list_len(st, lb)
             lnv = z3.simplify(ln)
@@ -1302,6 +1372,11 @@ class Engine:
     def ev_Tuple(self, node, st, k, ctx):
         return self.ev_list(node.elts, st, lambda s1, vs: k(s1, V(("tuple", tuple(v.s for v in vs)), tuple(vs))), ctx)
 
+    def ev_Dict(self, node, st, k, ctx):
+        if node.keys:
+            raise Unsupported("non-empty dict literal")
+        return k(st, self.new_dict(st))
+
     def ev_List(self, node, st, k, ctx):
         def f(s1, vs):
             if not vs:
@@ -1429,8 +1504,18 @@ class Engine:
             ln = z3.Length(lo.t)
             idx = self.norm_index(st, li.t, ln, node, ctx)
             return k(st, V(STR, z3.SubString(lo.t, idx, 1)))
-        if lo.s[0] == "pymap":
-            raise Unsupported("dict")
+        if lo.s[0] == "dict" and (lo.s[1] == STR) != ((lift(i) if i.s == PY else i).s == STR):
+            return self.throw(st, "KeyError", node, ctx)        # a text key in an int-keyed dict (or the reverse) is simply absent
+        if lo.s[0] == "dict":
+            has = self.dict_has(st, lo, i)
+            s_no = st.fork()
+            s_no.assume(z3.Not(has))
+            if self.feasible(s_no):
+                self.throw(s_no, "KeyError", node, ctx)
+            st.assume(has)
+            if st.infeasible or not self.feasible(st):
+                return
+            return k(st, self.dict_val(st, lo, i))
         raise Unsupported(f"subscript of {o}")
 
     def ev_slice(self, st, o, node, k, ctx):
@@ -1571,8 +1656,8 @@ class Engine:
                 self.ghost_get(st, nm, sort)
                 st.ghost[nm] = fresh_value("hv!" + nm, sort) if sort[0] != "map" else V(sort, fresh("hv!" + nm, z3sort_of_ghost(sort)))
                 continue
-            if nm == "list":
-                for n2 in ("list.len", "list.I", "list.R", "list.S", "list.nan"):
+            if nm in GROUPS:
+                for n2 in GROUPS[nm]:
                     self.arr(st, n2)
                     st.heap.arrs[n2] = fresh("hv!" + n2, arr_sort_for(n2))
                 continue
@@ -1595,7 +1680,7 @@ class Engine:
                 base, expr = m.split("@", 1)
                 out.append(self.expand_modifies([base])[0] + "@" + expr)
                 continue
-            if m in ("list",) or m.startswith("ghost.") or m.startswith("global."):
+            if m in GROUPS or m.startswith("ghost.") or m.startswith("global."):
                 out.append(m)
                 continue
             cname, fname = m.split(".", 1)
@@ -1781,8 +1866,8 @@ class Engine:
         # cells of objects allocated after function entry are not effects on the state a loop / caller contract talks about
         st.wlog.extend(b_ for b_, objs_ in gran.items() if any(not _is_fresh_id(z3.simplify(o_)) for o_ in objs_))
         for m in mods:
-            if m == "list":
-                modset |= {"list.len", "list.I", "list.R", "list.S", "list.nan"}
+            if m in GROUPS:
+                modset |= set(GROUPS[m])
             elif m.startswith("ghost.") or m.startswith("global."):
                 continue
             else:
@@ -1809,8 +1894,8 @@ class Engine:
         """{"Class.field" | "list": [object terms]} -> {array name: [object terms]} (arrays materialised)"""
         out = {}
         for base, objs in gran.items():
-            if base == "list":
-                names = ["list.len", "list.I", "list.R", "list.S", "list.nan"]
+            if base in GROUPS:
+                names = list(GROUPS[base])
             else:
                 cname, fname = base.split(".", 1)
                 fs = R.class_fields(cname)[fname]
@@ -2079,6 +2164,18 @@ class Engine:
             self.throw(s_bad, "ValueError", node, ctx)
             st.assume(lit_arity(v.t) == n)
             v = V(("tuple", tuple(REAL for _ in range(n))), tuple(V(REAL, lit_num(v.t, z3.IntVal(i))) for i in range(n)))
+        if isinstance(tgt, ast.Tuple) and v.s[0] == "list" and v.s[1] != ("unk",):
+            # unpacking a list into n names: ValueError unless it has exactly n elements
+            n = len(tgt.elts)
+            ln = self.list_len(st, v)
+            s_bad = st.fork()
+            s_bad.assume(ln != n)
+            if self.feasible(s_bad):
+                self.throw(s_bad, "ValueError", node, ctx)
+            st.assume(ln == n)
+            if st.infeasible:
+                return
+            v = V(("tuple", tuple(v.s[1] for _ in range(n))), tuple(self.list_get(st, v, z3.IntVal(i)) for i in range(n)))
         if isinstance(tgt, ast.Tuple):
             if v.s[0] != "tuple" or len(v.t) != len(tgt.elts):
                 raise Unsupported("tuple unpacking")
@@ -2097,8 +2194,9 @@ class Engine:
                         idx = self.norm_index(s2, lift(i).t, ln, node, ctx)
                         self.set_list(s2, o, elems_arr=z3.Store(self.list_elems(s2, o), idx, val.t), node=node)
                         return k(s2)
-                    if o.s[0] == "pymap":
-                        return self.ext_call("dict.__setitem__", s2, node, [o, i, v], {}, lambda s3, _: k(s3), ctx)
+                    if o.s[0] == "dict":
+                        self.dict_set(s2, o, i, v, node)
+                        return k(s2)
                     raise Unsupported(f"subscript store on {o}")
                 return self.ev(tgt.slice, s1, g, ctx)
             return self.ev(tgt.value, st, f, ctx)
@@ -2204,7 +2302,16 @@ class Engine:
         return loops.exec_for(self, node, st, k, ctx)
 
     def st_With(self, node, st, k, ctx):
-        raise Unsupported("with statement")
+        # only `with open(...) as name:` -- the file object is an abstract sequence of lines (externals: open); closing it has no modelled effect
+        it = node.items[0] if len(node.items) == 1 else None
+        if it is None or not (isinstance(it.context_expr, ast.Call) and isinstance(it.context_expr.func, ast.Name) and it.context_expr.func.id == "open"
+                              and isinstance(it.optional_vars, ast.Name)):
+            raise Unsupported("with statement (only `with open(...) as name` is modelled)")
+
+        def f(s1, v):
+            s1.env[it.optional_vars.id] = v
+            return self.exec_block(node.body, s1, k, ctx)
+        return self.ev(it.context_expr, st, f, ctx)
 
     def st_Import(self, node, st, k, ctx):
         return k(st)
